@@ -118,11 +118,19 @@ def snapshot(tracks, stacks: bool = True) -> dict:
     s["ndim"] = tracks.ndim
     s["registry"] = registry(tracks)
     if stacks:
+        # the history is compared structurally through its two stacks when they exist under
+        # these names; a differently organised history object is compared by its repr-free
+        # attribute fingerprint
         h = tracks.action_history
-        s["undo_len"] = len(h.undo_stack)
-        s["redo_len"] = len(h.redo_stack)
-        s["undo_fp"] = tuple(_action_fp(a) for a in h.undo_stack)
-        s["redo_fp"] = tuple(_action_fp(a) for a in h.redo_stack)
+        us, rs = getattr(h, "undo_stack", None), getattr(h, "redo_stack", None)
+        if isinstance(us, list) and isinstance(rs, list):
+            s["undo_len"] = len(us)
+            s["redo_len"] = len(rs)
+            s["undo_fp"] = tuple(_action_fp(a) for a in us)
+            s["redo_fp"] = tuple(_action_fp(a) for a in rs)
+        else:
+            s["history_fp"] = norm({k: (tuple(_action_fp(a) for a in v) if isinstance(v, list) else v)
+                                    for k, v in vars(h).items()})
     return s
 
 
